@@ -165,7 +165,8 @@ class Gen:
             s, lead = self.spin(), self.lead()
             ell_min = rng.choice([0, 0, 0, rng.randint(0, 4), rng.randint(0, 12), rng.randint(-2, 0)])
             L = ell_min + rng.randint(-1, 4) if rng.random() < 0.6 else self.ell()
-            form = rng.choice(["keyword", "pos3", "pos1", "deduced", "deduced", "badpos", "nospin", "modes-in", "zero-dim"])
+            form = rng.choice(["keyword", "keyword", "pos3", "pos3", "pos1", "pos1", "deduced", "deduced", "deduced", "deduced", "badpos", "badpos", "nospin", "nospin",
+                               "modes-in", "modes-in", "zero-dim"])
             size = (L + 1) ** 2 - ell_min ** 2
             validsize = size >= 0
             if not validsize or rng.random() < 0.25:
@@ -258,8 +259,12 @@ class Gen:
     def gen_index(self, n):
         for _ in range(n):
             f = self.modes(lead=())
-            ell = self.rng.randint(-1, f.ell_max + 2)
-            m = self.rng.randint(-ell - 2, ell + 2) if self.rng.random() < 0.8 else self.rng.choice([-ell, ell, 0])
+            if self.rng.random() < 0.5:
+                ell = self.rng.randint(-1, f.ell_max + 2)
+                m = self.rng.randint(-ell - 2, ell + 2) if self.rng.random() < 0.8 else self.rng.choice([-ell, ell, 0])
+            else:
+                ell = self.rng.randint(min(abs(f.s), f.ell_max + 1), f.ell_max + 1)
+                m = self.rng.randint(-ell - 1, ell + 1)
 
             def call():
                 i = f.index(ell, m)
